@@ -129,6 +129,17 @@ def decision_alternatives(t: Term, conds: Tuple = ()) -> List[Tuple[Tuple, Term]
         for a in t[1]:
             out += decision_alternatives(a, conds)
         return out
+    if t and t[0] == "index" and isinstance(t[2], int) and isinstance(t[1], tuple) and t[1] and t[1][0] in ("ifexp", "phi"):
+        # names, n = <helper that answers (names, n) or None>: the k-th element of each alternative
+        out = []
+        for c_, alt in decision_alternatives(t[1], conds):
+            if alt[0] in ("tuple", "list") and -len(alt[1]) <= t[2] < len(alt[1]):
+                out.append((c_, alt[1][t[2]]))
+            elif alt == ("const", None):
+                out.append((c_, alt))
+            else:
+                out.append((c_, ("index", alt, t[2])))
+        return out
     return [(conds, t)]
 
 
